@@ -13,6 +13,7 @@ static void random_inputs(const mjModel* m, mjData* d, Rng& r, bool vel, bool ac
   for (int i = 0; i < m->nu; i++) if (r.chance(0.7)) d->ctrl[i] = r.uniform(-1, 1);
   if (m->nv && r.chance(0.7)) d->qfrc_applied[r.below(m->nv)] = r.uniform(-2, 2);
   if (m->nbody > 1 && r.chance(0.5)) { int b = r.range(1, m->nbody - 1); for (int k = 0; k < 6; k++) d->xfrc_applied[6 * b + k] = r.uniform(-1, 1); }
+  if (m->na && r.chance(0.3)) d->act[r.below(m->na)] += r.uniform(-8, 8);   // activations are read in the acceleration stage only: an input of every stage
   if (vel) for (int i = 0; i < m->nv; i++) if (r.chance(0.3)) d->qvel[i] += r.uniform(-0.2, 0.2);
   if (acc) for (int i = 0; i < m->nv; i++) if (r.chance(0.3)) d->qacc[i] += r.uniform(-1, 1);
 }
